@@ -120,9 +120,14 @@ theorem coherent_fromOutDict (od : Dict V (Dict V (List L))) (st : List V) (h : 
     | none => simp
     | some r => simp only [Option.map_some, Option.some.injEq]; rintro rfl; exact graphRow_nodup r
   · intro v; show v ∈ (buildGraphDict od).keys ↔ v ∈ od.keys; rw [hgkeys]
-  · intro w hw
-    obtain ⟨v, row, h1, h2⟩ := (hi2 w).1 hw
-    exact h.closed v row w h1 h2
+  · intro w
+    show w ∈ (buildInDict od).keys ↔ w ∈ od.keys
+    rw [hi2 w]
+    constructor
+    · rintro (hw | ⟨v, row, h1, h2⟩)
+      · exact hw
+      · exact h.closed v row w h1 h2
+    · exact Or.inl
   · intro v w; exact (hi3 w v).symm
   · intro v l w
     show ((buildGraphDict od).get? v).bind (·.get? l) = some w ↔ ∃ ls, (od.get? v).bind (·.get? w) = some ls ∧ l ∈ ls
